@@ -548,14 +548,14 @@ class AirTouchSocket(Generic[comms.Hdr]):
 
     async def _notify_connection_changed(self, *, connected: bool) -> None:
         await self._notify_subscribers(
-            [s(connected=connected) for s in self._connection_subscribers],
+            [_call(s, connected=connected) for s in self._connection_subscribers],
         )
 
     async def _notify_message_received(
         self, header: comms.Hdr, message: comms.Message
     ) -> None:
         await self._notify_subscribers(
-            [s(header, message) for s in self._message_subscribers],
+            [_call(s, header, message) for s in self._message_subscribers],
         )
 
     async def _notify_subscribers(self, callbacks: Iterable[Awaitable[Any]]) -> None:
@@ -564,6 +564,17 @@ class AirTouchSocket(Generic[comms.Hdr]):
                 _ = await coro
             except Exception:
                 _LOGGER.exception("Exception from subscriber")
+
+
+async def _call(
+    subscriber: Callable[..., Awaitable[Any]], *args: Any, **kwargs: Any
+) -> None:
+    """Call a subscriber from within a co-routine.
+
+    A subscriber that raises when it is called (rather than when its result is
+    awaited) is then handled like any other failing subscriber.
+    """
+    await subscriber(*args, **kwargs)
 
 
 T = TypeVar("T")
